@@ -155,6 +155,47 @@ def dump_response(resp):
     return '%s|%s|%s' % (resp._status_line, hs, cs)
 
 
+def echo_uploads(rq):
+    """everything a handler can read about the uploaded files: field name, client file name, content type,
+    every part header (name=value, sorted), one header through get_header, the size; then the form fields"""
+    out = []
+    for k in sorted(rq.files.keys()):
+        f = rq.files[k]
+        ct = f.content_type
+        tag = f.get_header('X-Tag', 'none')
+        out.append('%s|%s|%s|%s|%s|%d' % (
+            k, f.raw_filename, getattr(ct, 'value', ct),
+            ';'.join('%s=%s' % (n, f.headers[n].value) for n in sorted(f.headers.keys())),
+            getattr(tag, 'value', tag), len(f.file.read())))
+    return '\n'.join(out) + '#' + ','.join('%s=%s' % (k, rq.forms[k]) for k in sorted(rq.forms.keys()))
+
+
+def expected_uploads(parts):
+    """the same text, from the parts the harness wrote into the body"""
+    out, forms = [], []
+    for p in sorted(parts, key=lambda p: p['name']):
+        if p.get('filename') is None:
+            forms.append('%s=%s' % (p['name'], p['data']))
+            continue
+        hs = {'Content-Disposition': 'form-data'}
+        hs.update(dict(p.get('headers', [])))
+        out.append('%s|%s|%s|%s|%s|%d' % (
+            p['name'], p['filename'], hs.get('Content-Type', ''),
+            ';'.join('%s=%s' % (n, hs[n]) for n in sorted(hs)), hs.get('X-Tag', 'none'), len(p['data'].encode())))
+    return '\n'.join(out) + '#' + ','.join(sorted(forms))
+
+
+def upload_body(parts):
+    segs = []
+    for p in parts:
+        disp = 'Content-Disposition: form-data; name="%s"' % p['name']
+        if p.get('filename') is not None:
+            disp += '; filename="%s"' % p['filename']
+        hs = ''.join('%s: %s\r\n' % (n, v) for n, v in p.get('headers', []))
+        segs.append('%s\r\n%s\r\n%s\r\n' % (disp, hs, p['data']))
+    return _mp(segs)
+
+
 def build_app(case, rec_box):
     """the static application; rec_box[0] is the recorder of the request being served"""
     from ombott import Ombott
@@ -185,6 +226,8 @@ def build_app(case, rec_box):
                 return 'json:' + json.dumps(app.request.json, sort_keys=True)
             if h.get('special') == 'forms':
                 return ','.join(sorted(app.request.forms.keys()))
+            if h.get('special') == 'upload':
+                return echo_uploads(app.request)
             return c3.run_prog(app, h, rec_box[0])
         return f
 
@@ -420,7 +463,7 @@ def mask_shared(out, case):
 
 BODY_OUTCOME = {
     # body class -> ('ok',) | ('shared', index in errors_map, is _raise called from inside an except block?)
-    'ok': ('ok',), 'okchunk': ('ok',), 'json_ok': ('ok',), 'forms_ok': ('ok',), 'urlenc_ok': ('ok',),
+    'ok': ('ok',), 'okchunk': ('ok',), 'json_ok': ('ok',), 'forms_ok': ('ok',), 'urlenc_ok': ('ok',), 'upload': ('ok',),
     'oversize': ('shared', 1, True), 'bigfield': ('shared', 1, True),
     'urlenc_big': ('shared', 1, False), 'json_big': ('shared', 1, False),      # _get_body_string: no except block around
     'badchunk': ('shared', 2, True), 'badjson': ('shared', 2, True), 'noname': ('shared', 2, True),
@@ -616,6 +659,22 @@ def body_request(rng, rid, cls, secret=None):
         req.update(body=list(_mp(['Content-Disposition: form-data; name="x"\r\n\r\n%s\r\n' % secret,
                                   'Content-Disposition: form-data; name="y"\r\n\r\nv2\r\n'])),
                    ctype='multipart/form-data; boundary=B', expect='x,y')
+    elif cls == 'upload':
+        # file uploads whose parts carry optional headers or not (Content-Type, X-Tag) + plain fields
+        how = 'upload'
+        parts = []
+        for k in range(rng.choice([1, 1, 2])):
+            hs = []
+            if rng.random() < 0.5:
+                hs.append(['Content-Type', rng.choice(['text/plain', 'image/png', 'application/x-%s' % secret])])
+            if rng.random() < 0.4:
+                hs.append(['X-Tag', 'tag-%s' % secret])
+            parts.append(dict(name='f%d' % k, filename=rng.choice(['a.txt', 'b.bin', '%s.dat' % secret]), headers=hs,
+                              data='D' * rng.randrange(0, 12)))
+        if rng.random() < 0.5:
+            parts.append(dict(name='note', data=secret))
+        req.update(body=list(upload_body(parts)), ctype='multipart/form-data; boundary=B', expect=expected_uploads(parts),
+                   parts=parts)
     elif cls == 'noname':
         how = 'forms'
         req.update(body=list(_mp(['Content-Disposition: form-data\r\nX-Upload-Token: %s\r\n\r\npayload\r\n' % secret])),
@@ -763,6 +822,26 @@ def corpus():
                                reqs=[_req(0, st_case(a, how1)), _req(1, st_case(b, how2)), _req(2, st_case(a, how2))]))
     import random
     rr = random.Random('corpus')
+    # header values of non-str types that compare equal (1 == 1.0 == True, 0 == 0.0 == False) in different requests
+    # (seeded change: _hval memoised with functools.lru_cache)
+    def hv(n, v, how='set'):
+        return dict(plain(hello), routing=dict(k='ok', rhooks=[], h=dict(muts=[dict(m=how, n=n, v=v)], res=dict(k='ret', o=hello))))
+    for a, b, c_ in ((1.0, True, 1), (True, 1.0, 1), (1, True, 1.0), (0, False, 0.0), (False, 0.0, 0), (2.0, 2, 2.0)):
+        cs.append(dict(kind='history', peek=False, eh=[],
+                       reqs=[_req(0, hv('X-Sample-Rate', a)), _req(1, hv('X-Cache-Hit', b, 'add')), _req(2, hv('X-Count', c_))]))
+    # uploads: a part with Content-Type / X-Tag, then a part without (seeded change: FieldStorage.headers class-level dict)
+    def up(rid, parts):
+        b = body_request(rr, rid, 'upload')
+        b.update(body=list(upload_body(parts)), expect=expected_uploads(parts), parts=parts)
+        b.pop('short', None)
+        return b
+    with_h = [dict(name='f0', filename='a.txt', headers=[['Content-Type', 'text/x-alice'], ['X-Tag', 'alice-tag']], data='DATA')]
+    without = [dict(name='f0', filename='b.bin', headers=[], data='DD')]
+    cs.append(dict(kind='history', peek=False, eh=[], reqs=[up(0, with_h), up(1, without), up(2, with_h)]))
+    cs.append(dict(kind='history', peek=True, eh=[], reqs=[up(0, without), up(1, with_h + [dict(name='note', data='n')]), up(2, without)]))
+    cs.append(dict(kind='history', peek=False, eh=[],
+                   reqs=[up(0, [dict(name='f0', filename='x', headers=[['Content-Type', 'a/b']], data='1'),
+                                dict(name='f1', filename='y', headers=[], data='22')])]))
     # a body error WITH a message, later one WITHOUT a message mapped to the same errors_map instance
     # (seeded change: _raise copies err.args[0] into the shared instance's body)
     for first, second in (('noname', 'badchunk'), ('badjson', 'badchunk'), ('bigfield', 'oversize'),
